@@ -587,6 +587,13 @@ def r9_file_keys(facts):
             out.append(Obl('C16.R9', fn.name, 'LSB term of the bank key', st['loc'], 'finding' if raw else 'discharged',
                            why='masked with 0x7F for the melodic set' if not raw else
                            'the LSB byte of a melodic bank enters the key unmasked: a value >= 128 gives a key that no bank identifier names (iteration shows it as the bank with LSB & 127, lookup cannot find it)'))
+            # ... but not for the percussive set: realTime_NoteOn addresses the XG SFX kits as program + 128, i.e. percussion banks with
+            # LSB 128..255 of the file; masking them too folds every SFX kit onto the drum kit of the same number
+            if not raw:
+                both = masked7(i_) or (i_.get('k') == 'ConditionalOperator' and masked7(i_.get('l')) and masked7(i_.get('r')))
+                out.append(Obl('C16.R9', fn.name, 'percussion LSB keeps its upper half', st['loc'], 'finding' if both else 'discharged',
+                               why='only the melodic arm is masked' if not both else
+                               'the LSB is masked for the percussive set as well: the XG SFX kits (LSB 128..255, addressed by note-on as program + 128) replace the drum kits 0..127 and are no longer found'))
     if n < 2:
         raise build.AnalysisBroken('C16.R9: key computation of LoadBank not found (%d)' % n)
     return out
